@@ -754,3 +754,256 @@ Theorem C16_nushell_generate_covers_named : forall c d bin,
 Proof. exact NushellProofs.generate_nushell_covers_named. Qed.
 Print Assumptions C16_nushell_generate_covers_named.
 (* ---- end nushell generator model ---- *)
+
+(* ---- zsh generator model ---- *)
+(** [Complete/ZshModel.v] is a byte-exact model of clap_complete/src/aot/shells/zsh.rs (compared with the real
+    generator's file on every run: streams [zsh-model], [zsh-model-names] of C16 and [zsh-model] of C17).  The file is a
+    list of pieces ([Zx] fixed text, [Zh] a text written through escape_help, [Zp] a positional's help); [sublist a l]:
+    [a] is a contiguous part of [l].  Class [zsh_ok c b]: the root has the bin name [b], the tree is [linked] (bin names
+    as [_build_bin_names_internal] makes them), no command name below the root contains a space, sibling names are
+    distinct. *)
+From ClapModel Require Import Complete.BashProofs Complete.FishModel Complete.ZshModel Complete.ZshProofs Escape.EscapeModel.
+
+(** the lookup by bin name: what it returns is a node of the tree with the bin name looked for ... *)
+Theorem C16_zsh_lookup_sound : forall c b m,
+  parser_of c b = Some m -> (m = c \/ desc c m) /\ bin_or_default m = b.
+Proof. exact parser_of_sound. Qed.
+Print Assumptions C16_zsh_lookup_sound.
+
+(** ... it finds one whenever a node has that bin name (so the [expect]s on [parser_of] are dead: every bin name looked
+    up is the bin name of a node) ... *)
+Theorem C16_zsh_lookup_complete : forall c n, (n = c \/ desc c n) -> parser_of c (bin_or_default n) <> None.
+Proof. exact parser_of_complete. Qed.
+Print Assumptions C16_zsh_lookup_complete.
+
+(** ... and in the class it returns THE node whose bin name was looked up (siblings [add] / [add-all] included) *)
+Theorem C16_zsh_lookup_exact : forall c b n,
+  c_bin c = Some b -> linked c -> nospace c -> sibling_names c -> (n = c \/ desc c n) ->
+  parser_of c (bin_or_default n) = Some n.
+Proof. exact parser_of_exact. Qed.
+Print Assumptions C16_zsh_lookup_exact.
+
+(** total: for every [linked] tree with a bin name no [expect] fires and the recursion through [parser_of] ends *)
+Theorem C16_zsh_total : forall bl c d b, c_bin c = Some b -> linked c -> exists s, zsh_script bl c d = Some s.
+Proof. exact zsh_total. Qed.
+Print Assumptions C16_zsh_total.
+
+Theorem C16_zsh_deterministic : forall bl c d s1 s2, zsh_script bl c d = Some s1 -> zsh_script bl c d = Some s2 -> s1 = s2.
+Proof. exact zsh_deterministic. Qed.
+Print Assumptions C16_zsh_deterministic.
+
+(** in the class the recursion through the lookup computes a function that is structural in the tree ... *)
+Theorem C16_zsh_sections_structural : forall bl f p d pb,
+  c_bin p = Some pb -> linked p -> nospace p -> sibling_names p -> (depth p <= f)%nat ->
+  get_subcommands_of bl f p d = Some (zspec_subs bl p d).
+Proof. exact get_subcommands_of_spec. Qed.
+Print Assumptions C16_zsh_sections_structural.
+
+(** ... namely: one [case] block per command that has subcommands, with one arm per name and visible alias of every
+    subcommand; the arm = its label, the [_arguments] block of THAT subcommand, the section of that subcommand *)
+Theorem C16_zsh_section_shape : forall bl p d,
+  zspec_subs bl p d =
+  if is_nil (c_subs p) then [] else
+  zcase_block (c_name p) (space_to_hyphen (bin_or_default p)) (dec (N.of_nat (List.length (get_positionals p)) + 1))
+    (zjoin znl (flat_map (fun q : cmd * cdesc =>
+                   map (arm (args_block bl (fst q) (snd q) (Some p)) (zspec_subs bl (fst q) (snd q)))
+                       (get_name_and_visible_aliases (fst q)))
+                (zipd cd0 (c_subs p) (cd_subs d)))).
+Proof. exact zspec_subs_unfold. Qed.
+Print Assumptions C16_zsh_section_shape.
+
+(** the whole file in the class *)
+Theorem C16_zsh_script_shape : forall bl c d b,
+  zsh_ok c b ->
+  exists details, zsubcommand_details c d = Some details /\
+    zsh_pieces bl c d = Some ([Zx (script_head b)] ++ args_block bl c d None ++ zspec_subs bl c d
+                           ++ [Zx (lf ++ [125] ++ lf ++ lf)] ++ details ++ [Zx (script_tail b)]).
+Proof. exact zsh_pieces_shape. Qed.
+Print Assumptions C16_zsh_script_shape.
+
+(** dispatch, every depth: for EVERY path of names or visible aliases the file contains the arm label of the last word
+    followed by the [_arguments] block of the node the path leads to (it sits in the arm of the word before, and so on:
+    [C16_zsh_section_shape]); every [reach] path is such a path *)
+Theorem C16_zsh_path_block : forall bl c d b ws n nd par,
+  zsh_ok c b -> dreach c d ws n nd par ->
+  exists s, zsh_script bl c d = Some s /\
+    sublist (zrender ([Zx ([40] ++ last ws [] ++ [41])] ++ znl ++ args_block bl n nd (Some par))) s.
+Proof. exact zsh_script_path. Qed.
+Print Assumptions C16_zsh_path_block.
+
+Theorem C16_zsh_root_block : forall bl c d b,
+  zsh_ok c b -> exists s, zsh_script bl c d = Some s /\ sublist (zrender (args_block bl c d None)) s.
+Proof. exact zsh_script_root. Qed.
+Print Assumptions C16_zsh_root_block.
+
+Theorem C16_zsh_reach_is_path : forall c ws ns n,
+  reach c ws ns n -> ws <> [] -> forall d, exists nd par, dreach c d ws n nd par.
+Proof. exact reach_dreach. Qed.
+Print Assumptions C16_zsh_reach_is_path.
+
+(** one level: the block of a command has a spec line for every spelling [get_short_and_visible_aliases] /
+    [get_long_and_visible_aliases] return for an option (hidden ones included) ... *)
+Theorem C16_zsh_block_options : forall bl c d g a ad,
+  c_bin c <> None -> In (a, ad) (zipd ad0 (c_args c) (cd_args d)) -> is_opt (a, ad) = true ->
+  (forall shorts s, get_short_and_visible_aliases a = Some shorts -> In s shorts ->
+     sublist (opt_short_line bl c g (a, ad) s) (args_block bl c d g)) /\
+  (forall longs l, get_long_and_visible_aliases a = Some longs -> In l longs ->
+     sublist (opt_long_line bl c g (a, ad) l) (args_block bl c d g)).
+Proof. exact block_options. Qed.
+Print Assumptions C16_zsh_block_options.
+
+(** ... which are the primary spelling and EVERY visible alias when the option has the primary (the class
+    [aliases_have_primary]; outside it: [C16_zsh_alias_without_primary_refuted]) ... *)
+Theorem C16_zsh_option_spellings : forall a,
+  (forall s, a_short a = Some s -> exists l, get_short_and_visible_aliases a = Some l /\ In s l /\
+                                             forall x, In (x, true) (a_short_aliases a) -> In x l) /\
+  (forall s, a_long a = Some s -> exists l, get_long_and_visible_aliases a = Some l /\ In s l /\
+                                            forall x, In (x, true) (a_aliases a) -> In x l).
+Proof. exact option_spellings_complete. Qed.
+Print Assumptions C16_zsh_option_spellings.
+
+(** ... a line for the short, every visible short alias, the long and every visible alias of a flag ... *)
+Theorem C16_zsh_block_flags : forall bl c d g a ad dashes name,
+  c_bin c <> None -> In (a, ad) (zipd ad0 (c_args c) (cd_args d)) -> is_flag (a, ad) = true ->
+  In (dashes, name) (flag_spellings a) -> sublist (zflag_line bl c g (a, ad) dashes name) (args_block bl c d g).
+Proof. exact block_flag_lines. Qed.
+Print Assumptions C16_zsh_block_flags.
+
+Theorem C16_zsh_flag_spellings : forall a,
+  (forall s, a_short a = Some s -> In ([45], s) (flag_spellings a) /\
+                                   forall x, In (x, true) (a_short_aliases a) -> In ([45], x) (flag_spellings a)) /\
+  (forall l, a_long a = Some l -> In ([45; 45], l) (flag_spellings a) /\
+                                  forall x, In (x, true) (a_aliases a) -> In ([45; 45], x) (flag_spellings a)).
+Proof. exact flag_spellings_complete. Qed.
+Print Assumptions C16_zsh_flag_spellings.
+
+(** ... a line for every positional that takes at most one value ... *)
+Theorem C16_zsh_block_positionals : forall bl c d g a ad,
+  c_bin c <> None -> In (a, ad) (zipd ad0 (c_args c) (cd_args d)) -> a_is_positional a = true ->
+  (1 <? a_max_values a)%N = false ->
+  exists card, sublist (positional_line card (a, ad)) (args_block bl c d g).
+Proof. exact block_positional_line. Qed.
+Print Assumptions C16_zsh_block_positionals.
+
+(** ... every non-hidden possible value on every line of an option that REQUIRES a value ([min_values() <> 0]; the
+    recorded finding [zsh-optional-value] is the boundary) and on the line of a positional: raw in the [(v1 v2)] form,
+    through escape_value in the [((v\:"help" ...))] form ... *)
+Theorem C16_zsh_option_values : forall bl c g a ad vs pv line,
+  a_min_values a <> 0%N -> possible_values a = Some vs -> In pv vs -> pv_hide pv = false ->
+  In line (opt_lines bl c g (a, ad)) ->
+  exists x, In (Zx x) line /\ (sublist (pv_name pv) x \/ sublist (zsh_escape_value (pv_name pv)) x).
+Proof. exact opt_line_values. Qed.
+Print Assumptions C16_zsh_option_values.
+
+Theorem C16_zsh_positional_values : forall card a ad vs pv,
+  possible_values a = Some vs -> In pv vs -> pv_hide pv = false ->
+  exists x, In (Zx x) (positional_line card (a, ad)) /\
+            (sublist (pv_name pv) x \/ sublist (zsh_escape_value (pv_name pv)) x).
+Proof. exact positional_line_values. Qed.
+Print Assumptions C16_zsh_positional_values.
+
+(** ... and, when the command has subcommands, the two lines that lead to them: the [_..._commands] function and the
+    state that selects the [case] block *)
+Theorem C16_zsh_block_subcommands : forall bl c d g,
+  c_bin c <> None -> has_subcommands c = true ->
+  sublist [Zx ([34; 58; 58; 32; 58; 95] ++ space_to_dd (bin_or_default c) ++ [95; 99; 111; 109; 109; 97; 110; 100; 115; 34; 32; 92])]
+          (args_block bl c d g) /\
+  sublist [Zx ([34; 42; 58; 58; 58; 32; 58; 45; 62] ++ c_name c ++ [34; 32; 92])] (args_block bl c d g).
+Proof. exact block_subcommand_lines. Qed.
+Print Assumptions C16_zsh_block_subcommands.
+
+(** the arm of every name and visible alias of every subcommand is in the section of its parent *)
+Theorem C16_zsh_arms : forall bl p d sc sd w,
+  In (sc, sd) (zipd cd0 (c_subs p) (cd_subs d)) -> In w (sc_words sc) ->
+  sublist (arm (args_block bl sc sd (Some p)) (zspec_subs bl sc sd) w) (zspec_subs bl p d).
+Proof. exact arm_in_section. Qed.
+Print Assumptions C16_zsh_arms.
+
+(** the [_..._commands] functions: for EVERY node of the tree the file has the function named after its bin name, and
+    its list has an entry ['name:about'] for every name and visible alias of every subcommand of that node *)
+Theorem C16_zsh_commands_functions : forall bl c d b n,
+  zsh_ok c b -> (n = c \/ desc c n) ->
+  exists s nd, zsh_script bl c d = Some s /\
+    sublist (zrender (commands_function (bin_or_default n) (subcommands_of n nd))) s.
+Proof. exact zsh_script_commands. Qed.
+Print Assumptions C16_zsh_commands_functions.
+
+Theorem C16_zsh_describe_entries : forall p d sc sd w,
+  In (sc, sd) (zipd cd0 (c_subs p) (cd_subs d)) -> In w (sc_words sc) ->
+  sublist (describe_entry (cd_about sd) w) (subcommands_of p d).
+Proof. exact subcommands_of_entry. Qed.
+Print Assumptions C16_zsh_describe_entries.
+
+(** a part of the pieces is a part of the bytes of the file *)
+Theorem C16_zsh_pieces_in_text : forall a l, sublist a l -> sublist (zrender a) (zrender l).
+Proof. exact sublist_render. Qed.
+Print Assumptions C16_zsh_pieces_in_text.
+
+(** the class is inhabited: siblings [add] / [add-all], a visible and a hidden alias, two levels, an option with visible
+    and hidden aliases and possible values, a counting flag, a required positional ... *)
+Theorem C16_zsh_ok_nonvacuous : zsh_ok zx_root [112].
+Proof. exact zsh_ok_example. Qed.
+Print Assumptions C16_zsh_ok_nonvacuous.
+
+(** ... and there the arm [(add-all)] carries the block of [add-all], the arm [(x)] reached through the alias [a] of
+    [add] the block of [x] *)
+Theorem C16_zsh_paths_nonvacuous :
+  exists s, zsh_script bl0 zx_root cd0 = Some s /\
+    sublist (zrender ([Zx [40; 97; 100; 100; 45; 97; 108; 108; 41]] ++ znl ++ args_block bl0 zx_add_all cd0 (Some zx_root))) s /\
+    sublist (zrender ([Zx [40; 120; 41]] ++ znl ++ args_block bl0 (zx_leaf [120] [112; 32; 97; 100; 100; 32; 120]) cd0 (Some zx_add))) s.
+Proof. exact zsh_example_paths. Qed.
+Print Assumptions C16_zsh_paths_nonvacuous.
+
+(** class boundaries.  [zsh-optional-value]: an option with [num_args(0..=1)] and the possible value [zz]: no [zz] in the file *)
+Theorem C16_zsh_optional_value_refuted :
+  exists c d b s a vs pv, zsh_ok c b /\ zsh_script bl0 c d = Some s /\ In a (c_args c) /\ a_is_positional a = false /\
+    possible_values a = Some vs /\ In pv vs /\ pv_hide pv = false /\ a_min_values a = 0%N /\
+    ~ sublist (pv_name pv) s.
+Proof. exact zsh_optional_value_refuted. Qed.
+Print Assumptions C16_zsh_optional_value_refuted.
+
+(** [alias-without-primary]: a visible short alias [x] of an option without a short: no [-x] in the file *)
+Theorem C16_zsh_alias_without_primary_refuted :
+  exists c d b s a, zsh_ok c b /\ zsh_script bl0 c d = Some s /\ In a (c_args c) /\ In ([120], true) (a_short_aliases a) /\
+    ~ sublist [45; 120] s.
+Proof. exact zsh_alias_without_primary_refuted. Qed.
+Print Assumptions C16_zsh_alias_without_primary_refuted.
+
+(** a subcommand NAME with a space ([a b] next to [a] -> [b], same bin name [p a b]): the lookup returns the first in
+    pre-order, the arm [(a b)] carries the block of [b], the flag [-x] of [a b] is nowhere in the file *)
+Theorem C16_zsh_space_in_name_refuted :
+  linked zs_root /\ sibling_names zs_root /\ ~ nospace zs_root /\ desc zs_root zs_ab /\
+  parser_of zs_root (bin_or_default zs_ab) = Some zs_b /\
+  exists s, zsh_script bl0 zs_root cd0 = Some s /\ ~ sublist [45; 120; 91] s.
+Proof. exact zsh_space_in_name_refuted. Qed.
+Print Assumptions C16_zsh_space_in_name_refuted.
+(** the same for the command tree AS THE USER WROTE IT ([Complete/ZshBuildProofs.v]): [binless c] = no subcommand carries an
+    explicit bin name (no spec format sets one).  [Command::build] then yields a [linked] tree with the bin name ... *)
+From ClapModel Require Import Complete.ZshBuildProofs.
+Theorem C16_zsh_build_linked : forall c bin b,
+  binless c = true -> bin <> [] -> build (set_bin_name c bin) = Some b -> c_bin b = Some bin /\ linked b.
+Proof. exact build_linked. Qed.
+Print Assumptions C16_zsh_build_linked.
+
+(** ... so [generate] (= [set_bin_name] + [build] + generator) writes a script for EVERY such tree, every assignment of
+    texts and every non-empty bin name: [build] does not run out of fuel, no [expect] fires, the recursion ends *)
+Theorem C16_zsh_generate_total : forall bl c d bin,
+  binless c = true -> bin <> [] -> exists s, generate_zsh bl c d bin = Some s.
+Proof. exact generate_zsh_total. Qed.
+Print Assumptions C16_zsh_generate_total.
+
+Theorem C16_zsh_generate_is_built : forall bl c d bin b,
+  build (set_bin_name c bin) = Some b -> generate_zsh bl c d bin = zsh_script bl b (dbuild (set_bin_name c bin) d).
+Proof. exact generate_zsh_is_built. Qed.
+Print Assumptions C16_zsh_generate_is_built.
+(** the exclusion list [(-x --exclude ...)] at the head of an option / flag spec ([conflicts_with]; [bl c a] = the
+    blacklist of the argument, a parameter of the model): for a non-global argument the spellings -- short, then long --
+    of the arguments the blacklist names, IN THE ORDER OF THE BLACKLIST *)
+Theorem C16_zsh_conflicts_list : forall bl c a g,
+  a_global a = false ->
+  arg_conflicts bl c a g =
+  (if is_nil (filter_map (find_arg c) (bl c a)) then []
+   else [40] ++ intercalate [32] (push_conflicts (filter_map (find_arg c) (bl c a))) ++ [41]).
+Proof. exact conflicts_list. Qed.
+Print Assumptions C16_zsh_conflicts_list.
+(* ---- end zsh generator model ---- *)
